@@ -107,7 +107,7 @@ def run(name, tier):
                 m = re.search(r"replay=(\S+)", v)
                 if m and os.path.exists(os.path.join(ROOT, m.group(1))):
                     body = json.load(open(os.path.join(ROOT, m.group(1))))
-                    res["checks"][p].setdefault("replays", []).append({k: str(body.get(k))[:(6000 if k in ("case", "original_case") else 300)] for k in ("kind", "case", "original_case", "impl", "model", "verdict", "failures", "function")})
+                    res["checks"][p].setdefault("replays", []).append({k: str(body.get(k))[:(100000 if k in ("case", "original_case") else 300)] for k in ("kind", "case", "original_case", "impl", "model", "verdict", "failures", "function")})
         res["detected"] = any(c["exit"] == 1 and c["violation_lines"] for c in res["checks"].values())
         res["with_failing_input"] = any(any("no-failing-input-found" not in v for v in c["violation_lines"]) for c in res["checks"].values())
     finally:
